@@ -629,27 +629,14 @@ def run(ctx):
                     "update:min_size=%d" % c["min"]]
                  + (["update:code-pages"] if c["impl"]["ncp"] else []),
                  sample=smp, size=len(c["before"]))
-    legacy = wit["impl"]["fatal"]
-    ctx.c14_fixed = not legacy
-    ctx.extra["trampoline_page_variant"] = "as found (pr_err)" if legacy else "repaired (returns -1)"
-    res = evaluate(ctx, pcases, ucases + [wit], fixed=not legacy)
+    # The trampoline-page defect (C14-1) is repaired in /repo ("fix:" commit, see known-findings.txt):
+    # the model describes the repaired code and the former witness is an ordinary case - if the
+    # defect returns, the checker rejects the implementation's behaviour and a VIOLATION is reported.
+    ctx.c14_fixed = True
+    ctx.extra["trampoline_page_variant"] = "as found (pr_err)" if wit["impl"]["fatal"] else "repaired (returns -1)"
+    res = evaluate(ctx, pcases, ucases + [wit], fixed=True)
     if res is not None:
-        wi = len(ucases)
         ctx.case(key=("witness", KNOWN_KEY), tags=["update:witness-trampoline-page-occupied"])
-        if wi in res["u_violations"]:
-            res["u_violations"].remove(wi)
-            txt = ("a module whose executable segment leaves fewer than 16 free bytes in its last page and is followed "
-                   "by another mapping cannot be patched: mcount_setup_trampoline calls pr_err and the traced program "
-                   "exits before main (mmap MAP_FIXED_NOREPLACE -> EEXIST)")
-            if ctx.kf.listed("C14", KNOWN_KEY):
-                ctx.known_finding(KNOWN_KEY, txt, legacy, {"mode": "update", "case": case_json(wit),
-                                                           "implementation": impl_json(wit)})
-            elif legacy:
-                ctx.log("DEFECT-CANDIDATE (reported, not listed in known-findings.txt): key=%s %s" % (KNOWN_KEY, txt))
-            else:
-                ctx.log("trampoline-page witness: the module is left unpatched and the process keeps running "
-                        "(repaired variant of mcount_setup_trampoline)")
-            ctx.extra["defect_witness_still_fails"] = {KNOWN_KEY: bool(legacy)}
         verdict_inproc(ctx, pcases, ucases + [wit], res)
     from props import c14_e2e
     c14_e2e.run(ctx, objdir, h)
